@@ -7,12 +7,12 @@ import zlib
 from lib.coqterm import cbytes, cbool, clist, copt, cN
 
 ID = "C42"
-QUICK_N = 2400
-THOROUGH_N = 40000
-SHARD = 200
+QUICK_N = 800
+THOROUGH_N = 9000
+SHARD = 100
 TRANSLATORS = ["flowfilter_atoms"]
 COQ_PRELUDE = "From MV Require Import Model.FilterGrammar.\n"
-RULE = ("62% expression trees (depth <= 5, thorough <= 6) over every unary / regex / int operator with arguments from a "
+RULE = ("62% expression trees (depth <= 5, thorough <= 6; parenthesis / negation nesting bounded because the real parser is exponential in it) over every unary / regex / int operator with arguments from a "
         "dictionary of regex-like words (operators, quotes, backslashes, parentheses, non-ASCII, empty), rendered by the harness "
         "renderer (mirror of the model's render; equality is part of the correspondence check) with random whitespace, redundant "
         "parentheses, explicit & vs juxtaposition, naked vs ~u, bare / raw-quoted / escape-quoted arguments, inside the guard of "
@@ -32,8 +32,9 @@ ASSUMPTIONS = ["filter strings are compared as UTF-8 bytes (all reserved charact
 WS = " \t\n\r"
 ARGS = ["foo", "a.*b", "x|y", "a&b", "!z", "\\d+", "[a-z]+", "(g|h)", "a b", "it's", 'say "hi"', "back\\\\slash", "été",
         "", "~x", "GET", "address", "example|foo", "text/html", "content-type", "hello", "127", ":22", ".", "^$", "msg",
-        "dns", "&", "|", "!", "&x", "|x", "200", "a\nb", "c\rd", "t\tu", "\\", "q\\", "\\n", "\\x41", "w\\.x", "*", "[",
-        "POST|GET", "image/.*", "host", "mitm", "'", '"', "a)", "(b", "x y z", "☃", "a~b", "no\\tab"]
+        "dns", "&", "|", "!", "&x", "|x", "200", "a\nb", "c\rd", "t\tu", "\\\\", "q\\.", "\\n", "\\x41", "w\\.x",
+        "POST|GET", "image/.*", "host", "mitm", "'", '"', "a\\)", "\\(b", "x y z", "☃", "a~b", "no\\tab"]
+ARGS_BAD = ["*", "[", "\\", "q\\", "a)", "(b", "(?P<", "+x"]
 
 
 def _tables():
@@ -187,6 +188,33 @@ def repaired(st, e):
     return st
 
 
+def nest(e, st, ctx):
+    """nesting cost of the rendering: pyparsing's infix_notation (no packrat) re-parses every parenthesised group
+    about 8 times and every negated operand twice, so the real parser is exponential in this number"""
+    n = 3 * len(sget(st, "pars")) + (3 if not sget(st, "pars") and lvl(e) < ctx else 0)
+    inner = 0 if sget(st, "pars") else ctx
+    if e[0] == "atom":
+        return n
+    if e[0] == "not":
+        return n + 1 + nest(e[1], sget(st, "c1"), 2)
+    if e[0] == "and":
+        return n + max(nest(e[1], sget(st, "c1"), 1), nest(e[2], sget(st, "c2"), 2))
+    return n + max(nest(e[1], sget(st, "c1"), 0), nest(e[2], sget(st, "c2"), 1))
+
+
+def nest_str(s):
+    d = mx = 0
+    for ch in s:
+        if ch == "(":
+            d += 3
+        elif ch == ")":
+            d = max(0, d - 3)
+        elif ch == "!":
+            d += 1
+        mx = max(mx, d)
+    return mx
+
+
 # ---------------------------------------------------------------- generator
 def gen_ws(rng, p=0.5):
     if rng.chance(p):
@@ -202,7 +230,7 @@ def gen_atom(rng):
     if r < 0.4:
         return ["i", rng.choice(t["int"]), rng.choice(["200", "0200", "404", "0", "7", "000", "99999999999999999999"])]
     code = t["naked"] if rng.chance(0.4) else rng.choice(t["rex"])
-    return ["r", code, rng.choice(ARGS)]
+    return ["r", code, rng.choice(ARGS_BAD) if rng.chance(0.05) else rng.choice(ARGS)]
 
 
 def gen_expr(rng, depth):
@@ -219,7 +247,7 @@ def gen_style(rng, e, spine, mode):
     if rng.chance(0.08) and e[0] != "atom":
         return None
     st = {"w1": gen_ws(rng), "w2": gen_ws(rng)}
-    npar = rng.weighted([(0, 80), (1, 15), (2, 4), (3, 1)])
+    npar = rng.weighted([(80, 0), (15, 1), (4, 2), (1, 3)])
     if e[0] == "and":
         wantj = rng.chance(0.45)
         if mode == "juxt":
@@ -254,32 +282,36 @@ SOUP = ["~q", "~s", "~a", "~all", "~u", "~h", "~hq", "~b", "~bq", "~c", "~marked
         "\t", "\n", "\r", "\x0b", "\x0c", " ", "foo", "a.*b", "200", "0", "x|y", "a&b", "!z", "[", "*", "(?", "\\d", "\\", "'", '"',
         "'a b'", '"a b"', '"\\""', "'\\''", '"\\n"', '"\\t"', '"\\x41"', '"\\101"', '"\\0"', '"\\u00e9"', '"\\x4"', '"\\8"', '"\\\\"',
         '"a\nb"', '"["', "'*'", '"\\u2603"', "é", "☃", "\U0001f600", "GET", "~u foo", "~c 200", "~b 'x y'", "(~q)", "(a b)",
+        '"\\73"', '"\\03"', '"\\04"', '"\\xA2"', '"\\x42"', '"\\u14"', '"\\uf4z"', '"\\83"', '"\\x2"',
         '"\\12"', '"\\1234"', '"\\xg1"', '"\\uD7FF"', '"\\f\\r"', "'\\\"'", '""', "''", "~c 12a", "~qa", "~q.", "~q!", "~hq)"]
 
 
 def gen(rng, n, tier):
     out = []
     maxd = 6 if tier == "thorough" else 5
+    maxnest = 11 if tier == "thorough" else 9
     rendered = []
     while len(out) < n:
         r = rng.random()
         if r < 0.77:
             mode = "guard" if r < 0.62 else ("juxt" if r < 0.72 else "raw")
-            d = rng.weighted([(0, 6), (1, 14), (2, 25), (3, 25), (4, 18), (maxd, 12)])
+            d = rng.weighted([(6, 0), (14, 1), (25, 2), (25, 3), (18, 4), (12, maxd)])
             e = gen_expr(rng, d)
             st = gen_style(rng, e, True, mode)
             c = {"k": "render", "e": e, "st": st, "lead": gen_ws(rng, 0.8), "trail": gen_ws(rng, 0.8)}
             jt, qk = juxt_top(e, st), quoting_ok(e, st)
-            if not jt and not qk:
-                continue  # exactly one kind of deviation per case
+            if (not jt and not qk) or (mode == "juxt" and jt) or (mode == "raw" and qk):
+                continue  # exactly one kind of deviation per case, and the intended one
             s = c["lead"] + render(e, st, 0) + c["trail"]
-            if len(s.encode()) > 400:
+            if len(s.encode()) > 300 or nest(e, st, 0) > maxnest:
                 continue
             rendered.append(s)
             out.append(c)
         elif r < 0.93 or not rendered:
-            out.append({"k": "str", "s": "".join(rng.choice(SOUP) + (" " if rng.chance(0.35) else "")
-                                                 for _ in range(rng.randint(1, 9)))})
+            s = "".join(rng.choice(SOUP) + (" " if rng.chance(0.35) else "") for _ in range(rng.randint(1, 9)))
+            if nest_str(s) > maxnest:
+                continue
+            out.append({"k": "str", "s": s})
         else:
             s = rng.choice(rendered[-50:])
             if s:
@@ -287,6 +319,8 @@ def gen(rng, n, tier):
                 m = rng.below(3)
                 ch = rng.choice("()!&|~'\"\\ a0")
                 s = s[:i] + (ch + s[i:] if m == 0 else s[i + 1:] if m == 1 else ch + s[i + 1:])
+            if nest_str(s) > maxnest + 3:
+                continue
             out.append({"k": "str", "s": s})
     return out
 
